@@ -1,7 +1,9 @@
 /* BOUNDED stand-in (never counted as proved) for "a text assembled from components parses back to exactly those components":
  * the real state machine of source/uri.c on a text of at most TEXT_MAX bytes that the harness assembles from symbolic
  * components (symbolic lengths within small limits, symbolic bytes restricted only by "the component does not contain its
- * own terminator").  libc memchr is modelled by its textbook definition (a loop), the decimal port parser is the real one. */
+ * own terminator").  libc memchr is modelled by its textbook definition (a loop), the decimal port parser is the real one.
+ * Outside the statement and excluded: a text WITHOUT scheme in which some ':' is directly followed by '/' (the parser reads
+ * the first such ':' as the scheme delimiter by design; a scheme-less "URI" is an extension of RFC 3986 anyway). */
 #include "contracts/uri.h"
 void aws_raise_error_private(int err) { g_last_error = err; g_raise_count++; }
 /* ASSUMED: libc memchr = first occurrence */
@@ -66,15 +68,21 @@ void h_parse_assembled(void) {
     if (has_q) { put('?'); q_off = tn; q_len = put_comp(2, false, false, false, false, false, false); }
     __CPROVER_assume(tn > 0);
     /* outside the statement: a scheme-less text in which a ':' is directly followed by '/' (read as a scheme delimiter by design) */
-    __CPROVER_assume(has_scheme || !(has_port && port_len == 0 && has_path));
-    __CPROVER_assume(has_scheme || !(has_ui && has_pw && false));
+    if (!has_scheme) for (size_t i = 0; i + 1 < TEXT_MAX; i++) __CPROVER_assume(!(i + 1 < tn && text[i] == ':' && text[i + 1] == '/'));
     /* an authority must not be completely empty together with an empty rest (MALFORMED by design) */
     __CPROVER_assume(auth_len > 0 || has_path || has_q);
 
     struct aws_uri u;
     memset(&u, 0, sizeof u);
     u.uri_str.buffer = text; u.uri_str.len = tn; u.uri_str.capacity = TEXT_MAX; u.uri_str.allocator = NULL;
-    int r = s_init_from_uri_str(&u);
+    /* the state machine of s_init_from_uri_str, written out (its loop and dispatch table are unit init_from_uri_str) */
+    struct uri_parser p = {.uri = &u, .state = ON_SCHEME};
+    struct aws_byte_cursor cur = aws_byte_cursor_from_buf(&u.uri_str);
+    s_parse_scheme(&p, &cur);
+    if (p.state == ON_AUTHORITY) s_parse_authority(&p, &cur);
+    if (p.state == ON_PATH) s_parse_path(&p, &cur);
+    if (p.state == ON_QUERY_STRING) s_parse_query_string(&p, &cur);
+    int r = p.state == FINISHED ? AWS_OP_SUCCESS : AWS_OP_ERR;
 
     /* the known class: empty path and a '/' inside the query */
     bool q_has_slash = false;
@@ -101,4 +109,54 @@ void h_parse_assembled(void) {
     if (has_scheme && has_ui && has_pw && v6 && has_port && has_path && has_q) CANARY("all components"); 
     if (!has_scheme && !has_ui && !v6 && !has_port && !has_path && !has_q) CANARY("host only");
     if (v6 && !has_port) CANARY("bracketed host without port");
+}
+
+/* ------------------------------------------------------------------ query-string iteration, BOUNDED: every query string of at most
+ * QN bytes (all byte values): the iterator yields exactly the non-empty '&'-separated pieces, once each, in order, split at
+ * their first '='; the list form holds the same pairs. */
+#include "source/array_list.c"
+#ifndef QN
+#define QN 5
+#endif
+void h_query_bounded(void) {
+    GHOST_RESET();
+    /* one addressable byte after the view (as for a view into a C string or into a URI followed by anything): after the
+     * last piece aws_byte_cursor_next_split forms end+1 before comparing it with end, which CBMC flags as pointer arithmetic
+     * outside the object when the view ends exactly at the end of its object (C01 discusses and covers that case) */
+    uint8_t q[QN + 1];
+    size_t n = nondet_size_t(); __CPROVER_assume(n <= QN);
+    struct aws_byte_cursor qc = {.ptr = q, .len = n};
+    /* reference: split on '&', drop empty pieces, split each at its first '=' */
+    size_t ko[QN], kl[QN], vo[QN], vl[QN], m = 0;
+    size_t start = 0;
+    for (size_t j = 0; j <= QN; j++) {
+        if (j <= n && (j == n || q[j] == '&')) {
+            if (j > start) {
+                size_t e = start; bool found = false;
+                for (size_t t = 0; t < QN; t++) if (!found && t >= start && t < j) { if (q[t] == '=') { found = true; e = t; } }
+                if (!found) e = j;
+                ko[m] = start; kl[m] = e - start; vo[m] = found ? e + 1 : j; vl[m] = found ? j - e - 1 : 0; m++;
+            }
+            start = j + 1;
+        }
+    }
+    /* iterator */
+    struct aws_uri_param p; memset(&p, 0, sizeof p);
+    size_t k = 0;
+    for (size_t it = 0; it <= QN; it++) {
+        if (k <= it - 0 && k == it) {
+            bool more = aws_query_string_next_param(qc, &p);
+            __CPROVER_assert(more == (k < m), "the iterator yields exactly as many pairs as there are non-empty pieces");
+            if (!more) break;
+            __CPROVER_assert(p.key.ptr == q + ko[k] && p.key.len == kl[k] && p.value.ptr == q + vo[k] && p.value.len == vl[k], "pair k = k-th non-empty piece, split at its first '='");
+            k++;
+        }
+    }
+    /* list form */
+    struct aws_uri_param st[QN]; struct aws_array_list l;
+    aws_array_list_init_static(&l, st, QN, sizeof(struct aws_uri_param));
+    int r = aws_query_string_params(qc, &l);
+    __CPROVER_assert(r == AWS_OP_SUCCESS && aws_array_list_length(&l) == m, "list form has the same number of pairs");
+    for (size_t i = 0; i < QN; i++) if (i < m) __CPROVER_assert(st[i].key.ptr == q + ko[i] && st[i].key.len == kl[i] && st[i].value.ptr == q + vo[i] && st[i].value.len == vl[i], "list element i = pair i");
+    if (m == 0) CANARY("no pairs"); else if (m == 1) CANARY("one pair"); else CANARY("several pairs");
 }
